@@ -2,6 +2,7 @@ import GrVerif.Proofs.PassAssoc
 import GrVerif.Props.C12
 import GrVerif.Model.Assoc
 import GrVerif.Proofs.AssocCover
+import GrVerif.Proofs.AssocSafe
 /-!
 # C05 — characters and slots stay validly associated   (partial)
 
@@ -109,6 +110,28 @@ theorem every_character_gets_slot_indices (n : Nat) (slots : List (Int × Int)) 
   have h1 := Assoc.associateChars_cinfo_nonneg n slots hP hne c hc
   have h2 := cinfo_values_are_slot_indices n slots c hc
   exact ⟨h1.1, h2.2.1, h1.2, h2.2.2.2⟩
+
+/-- **`associateChars` stays inside the char-info array.**  The function indexes `charinfo(j)` between a slot's `before` and `after` and
+next to that range without testing `j`; when every slot's `before` and `after` are character indices (in either order - `insert` can
+produce inverted ranges) no such access leaves `[0, n)`: the model's fault flag stays down. -/
+theorem associateChars_stays_inside_the_cinfo_array (n : Nat) (slots : List (Int × Int)) (hP : Assoc.InRange n slots) :
+    (Assoc.associateChars n slots).2.2 = false := Assoc.associateChars_noFault n slots hP
+
+/-- **the same for the whole pipeline, every font and every non-empty text**: after the substitution passes - whatever their rules and
+action programs did to the stream - the re-association goes through (the range invariant `pipeline_assoc_in_range` is what it needs):
+the pipeline never stops with "associateChars: char-info access out of range" -/
+theorem reassociation_never_overruns_the_cinfo_array (font : Pass.Font) (text : List Nat) (fuel : Nat) (dir : Nat) (hn : 0 < text.length) {c1 : Ctx}
+    (h1 : Pass.runPhase font.passes font.bPass (Pass.startMirror font (Pass.initCtx font text dir)) 0 font.ipos true fuel font.aMirror = .ok (some c1)) :
+    ∃ r, Pass.reassoc c1.seg text.length = some r := Pass.reassociation_stays_inside_cinfo font text fuel dir hn h1
+
+/-- non-vacuity: an inverted range (`before` 3 > `after` 1) is in range, and `associateChars` runs through it without a fault; a range that
+ends behind the array (`after` = 6 of 6 characters) is not, and the fault flag goes up -/
+example : Assoc.InRange 6 [(0, 0), (3, 1), (4, 5)] ∧ (Assoc.associateChars 6 [(0, 0), (3, 1), (4, 5)]).2.2 = false ∧
+    (Assoc.associateChars 6 [(0, 0), (4, 6)]).2.2 = true := by
+  refine ⟨?_, by decide, by decide⟩
+  intro p hp
+  simp only [List.mem_cons, List.mem_nil_iff, or_false] at hp
+  rcases hp with h | h | h <;> subst h <;> decide
 
 /-- the hypothesis is satisfiable and the function is exercised: three slots over six characters with two gaps -/
 example : Assoc.Proper 6 [(1, 1), (1, 2), (4, 4)] ∧ (Assoc.associateChars 6 [(1, 1), (1, 2), (4, 4)]).1 = [(0, 1), (1, 3), (3, 5)] := by
